@@ -35,6 +35,36 @@ def with_tenants(cast, a, b):
     return json.loads(json.dumps(cast).replace("tenant:A", "tenant:" + a).replace("tenant:B", "tenant:" + b))
 
 
+def failure_family(a, b):
+    """The node hosting tenant <a>'s will-carrying sessions fails.  The will topics are named like tenant <b> (its mount point
+    followed by a level) and like a topic <b> itself uses; one will is retained.  Watchers of both tenants and of the default
+    one are subscribed to '#' before the failure, and another set subscribes afterwards (retained replay)."""
+    out = []
+    blv = b.split("/")
+    for r, q in ((True, 1), (True, 0), (False, 1)):
+        for late_first in (False, True):
+            ops = []
+            for c, user in ((7, "tenant:" + a), (6, "tenant:" + b), (5, "")):
+                ops += [{"op": "connect", "c": c, "n": 1, "client": "watch%d" % c, "user": user, "ka": 60000},
+                        {"op": "sub", "c": c, "id": 1, "fs": [{"f": ["#"], "q": 1}]}]
+            ops += [{"op": "connect", "c": 9, "n": 1, "client": "pub9", "user": "tenant:" + b, "ka": 60000},
+                    {"op": "pub", "c": 9, "t": ["alarm"], "p": "b-own-alarm", "q": 1, "r": True, "id": 3},
+                    {"op": "connect", "c": 1, "n": 2, "client": "dev", "user": "tenant:" + a, "ka": 10,
+                     "will": {"t": blv + ["alarm"], "p": "will-named-like-b", "q": q, "r": r}},
+                    {"op": "connect", "c": 2, "n": 2, "client": "dev2", "user": "tenant:" + a, "ka": 10,
+                     "will": {"t": ["alarm"], "p": "will-alarm", "q": 0, "r": not r}},
+                    {"op": "peerfail", "n": 2, "ms": 3300}]
+            late = [(4, "tenant:" + b), (3, "tenant:" + a), (10, "")]
+            if late_first:
+                late.reverse()
+            for c, user in late:
+                ops += [{"op": "connect", "c": c, "n": 1, "client": "late%d" % c, "user": user, "ka": 60000},
+                        {"op": "sub", "c": c, "id": 1, "fs": [{"f": ["#"], "q": 1}, {"f": ["alarm"], "q": 0}]}]
+            ops.append({"op": "quiesce"})
+            out.append({"nodes": [1, 2], "ops": ops})
+    return out
+
+
 def check(run):
     thorough = run.tier == "thorough"
     run.model_check("MC_Session", "MC_Session_takeover.cfg")
@@ -48,7 +78,9 @@ def check(run):
         c = json.loads(json.dumps(casts[i % 3]))
         c["conns"] = {int(k): v for k, v in c["conns"].items()}
         scns.append(sessionlib.build(h, c))
-    run.log("%d tenant scripts" % len(scns))
+    ff = failure_family("A", "B") + failure_family("org/north", "org/south") + failure_family("A", "org/south")
+    scns += ff
+    run.log("%d tenant scripts (%d with the failure of a node hosting wills named like the other tenant)" % (len(scns), len(ff)))
     tpath, crashes = brokerlib.execute(run, scns, "c17", shards=14, timeout=3000)
     if crashes:
         raise vlib.Inconclusive("broker driver died: %s" % crashes[0][2][-2000:])
@@ -61,7 +93,8 @@ def check(run):
         "distinct_nontrivial": len(scns),
         "rule": "scenario = TLC-generated script (depth %d, >= 2 connects and >= 1 publish round) for 3 connections in tenants A, B, A with client ids "
                 "dev, dev, dev3 on two nodes; each publish round publishes in both tenants (one retained) on topics that also exist in the other "
-                "tenant and on topics named like the other tenant; three '#' watchers (A, B, default tenant)" % (6 if thorough else 5),
+                "tenant and on topics named like the other tenant; three '#' watchers (A, B, default tenant); plus node failures with (retained) wills "
+                "whose topics are named like the other tenant's mount point, watched before and subscribed to after the failure" % (6 if thorough else 5),
         "events_validated": nev, "trace_spec_states": tstates, "rejections": len(rejected),
         "samples": [hs[0], hs[len(hs) // 2]],
     }, ["mount points named like 'org/north' (with a '/') are exercised; a mount point that is a prefix-plus-'/' of another one AND publishes topics that spell the other one's name would alias by construction - the casts avoid topics starting with the sibling's last component; '+' and '#' in mount-point names are not exercised",
